@@ -177,5 +177,34 @@ def rule_u4(repo):
     return res
 
 
+def rule_u5(repo):
+    """unify(T1, T2) may succeed without doing anything only when both sides are variables of the same
+    kind (and name): a type variable 'a and a schematic type variable ?'a are different types."""
+    from ..kinds import infeasible_edges, TYPE_KINDS, TYPE_CONSTS
+    res = RuleResult('C08.U5', 'unification succeeds without binding anything only for two variables of the same kind', floor=4)
+    f = repo.func(INFER, 'type_infer.<locals>.unify')
+    cfg = cfg_of(f.node)
+    t1, t2 = f.params()[:2]
+    # "does nothing and succeeds": a normal completion that passes no call to union / unify and no raise
+    actions = [n for n in cfg.nodes if n.kind in ('stmt', 'iter') and any(
+        isinstance(c, ast.Call) and call_name(c) in ('union', 'unify') for h in cfg.headers(n) for c in ast.walk(h))]
+    # internal variables are handled by union: assume neither side is internal
+    internal = {(n.id, 'true') for n in cfg.test_nodes() if isinstance(n.ast, ast.Call) and call_name(n.ast) == 'is_internal_type'}
+    for k1 in TYPE_KINDS:
+        for k2 in TYPE_KINDS:
+            if k1 == k2:
+                continue
+            skip = set(internal)
+            skip |= infeasible_edges(cfg, lambda e: is_name(e, t1), k1, TYPE_KINDS, TYPE_CONSTS)
+            skip |= infeasible_edges(cfg, lambda e: is_name(e, t2), k2, TYPE_KINDS, TYPE_CONSTS)
+            path = cfg.path_avoiding(cfg.exit, skip_nodes=actions, skip_edges=skip)
+            res.add('%s :: type_infer.unify :: noop-success(%s,%s)' % (INFER, k1, k2), path is None,
+                    'different kinds never unify silently' if path is None else
+                    'unify(%s, %s) can return successfully without binding anything (through line %s): e.g. the type variable \'a is '
+                    'identified with the schematic ?\'a and the inferred term does not type-check' % (
+                        k1, k2, [n.lineno for n in path if n.kind == 'test'][-2:]), f.loc)
+    return res
+
+
 def rules(repo):
-    return [rule_u1(repo), rule_u2(repo), rule_u3(repo), rule_u4(repo)]
+    return [rule_u1(repo), rule_u2(repo), rule_u3(repo), rule_u4(repo), rule_u5(repo)]
